@@ -297,6 +297,18 @@ where
 				ValueType::Arraylike { element_type: b } => a.is_like(b),
 				_ => self == other,
 			},
+			// The element of an array can be a pointer or view through which
+			// a member or element is accessed.
+			ValueType::Pointer { deref_type: a } => match other
+			{
+				ValueType::Pointer { deref_type: b } => a.is_like(b),
+				_ => self == other,
+			},
+			ValueType::View { deref_type: a } => match other
+			{
+				ValueType::View { deref_type: b } => a.is_like(b),
+				_ => self == other,
+			},
 			// The element of an array can be a structure that is accessed
 			// through a member before its name is resolved.
 			ValueType::Struct { identifier: a, .. } => match other
